@@ -11,7 +11,7 @@ import (
 
 func init() {
 	props["C18"] = &propCheck{
-		lean:    []string{"JSight.Props.C18", "JSight.Props.C18_Include", "JSight.Props.C04_Pipeline"},
+		lean:    []string{"JSight.Props.C18", "JSight.Props.C18_Include", "JSight.Props.C04_Pipeline", "JSight.Props.C08_Project"},
 		exes:    []string{"jsight-ctx"},
 		run:     runC18,
 		assume:  []string{"the ban check of addDirective (catalog phase) is redundant after the keyword-time check and is not modelled", "that no file is read behind a banned INCLUDE is a theorem of the multi-file scan model (C18_Include.banned_include_reads_nothing: the result depends on the root file only), tied by the projectb correspondence; on the real code it is additionally observed with a canary (a banned INCLUDE of a non-existent file), not traced"},
